@@ -629,6 +629,9 @@ def build_scenario(kind, v):
         if kind == "metric":
             import e2_metric
             return e2_metric.metric_scenario(v)
+        if kind == "iter":
+            import e2_metric
+            return e2_metric.iter_scenario(v)
         if kind == "search":
             import e2_search
             return e2_search.search_scenario(v, vals.get("unlimited", False))
